@@ -24,11 +24,17 @@ Definition exh_inputs (lo hi : N) : list (list N) :=
   flat_map (fun a => [a] :: map (fun b => [a; b]) all_bytes) (range_from (N.to_nat (hi - lo)) lo).
 
 (* codes are prefixed by a 2-byte little-endian length *)
+Fixpoint split_at (n : nat) (l : list N) : option (list N * list N) :=
+  match n with
+  | O => Some ([], l)
+  | S k => match l with
+           | [] => None
+           | x :: r => match split_at k r with Some (a, b) => Some (x :: a, b) | None => None end
+           end
+  end.
 Definition take_code (s : list N) : option (list N * list N) :=
   match s with
-  | l0 :: l1 :: r => let n := l0 + 256 * l1 in
-                     if N.of_nat (length r) <? n then None
-                     else Some (firstn (N.to_nat n) r, skipn (N.to_nat n) r)
+  | l0 :: l1 :: r => split_at (N.to_nat (l0 + 256 * l1)) r
   | _ => None
   end.
 
